@@ -34,6 +34,7 @@
 #undef malloc
 #undef free
 #undef realloc
+#include "vf_frame.h"
 
 static vf_tree T; static cJSON *parent, *x; static unsigned n; static cJSON *kid[K + 2];
 static cJSON *expect[K + 3]; static unsigned nexp;
@@ -102,6 +103,7 @@ int main(VF_MAIN_ARGS)
     live0 = vf_live;
     vf_fail_at = IN.fail_at ? vf_nreq + IN.fail_at : 0;
     expect_unchanged();
+    VF_FRAME_BEGIN();
 
 #if OP == 1      /* cJSON_AddItemToArray */
     {
@@ -314,6 +316,7 @@ int main(VF_MAIN_ARGS)
         }
     }
 #endif
+    VF_FRAME_END(0);
     check_list();
     if (nexp == n && expect[0] == kid[0]) { int same = 1; for (i = 0; i < n; i++) if (expect[i] != kid[i]) same = 0; (void)same; }
     VF_WITNESS("end");
